@@ -361,6 +361,8 @@ class IkeSa(object):
             self.log_error(f'Received a malformed or unprotected message: {ex}. Ignoring')
             return None
         self.log_message(message, data, send=False)
+        # AUTH is computed over the octets that were received, not over a re-serialisation of what was understood (RFC 7296 2.15)
+        message.received_data = bytes(data)
 
         # once we have keys, the only acceptable IKE_SA_INIT message is a retransmission of the request
         if self.peer_crypto is not None and message.exchange_type == Message.Exchange.IKE_SA_INIT:
@@ -529,7 +531,7 @@ class IkeSa(object):
         self.state = IkeSa.State.INIT_RES_SENT
 
         # store messages for later authentication
-        self.ike_sa_init_req_data = request.to_bytes()
+        self.ike_sa_init_req_data = getattr(request, 'received_data', None) or request.to_bytes()
         self.ike_sa_init_res_data = response.to_bytes()
 
         # return response
@@ -723,7 +725,7 @@ class IkeSa(object):
         self.process_ike_sa_negotiation_response(response, self.request.get_payload(Payload.Type.NONCE).nonce)
 
         # save the message for later authentication
-        self.ike_sa_init_res_data = response.to_bytes()
+        self.ike_sa_init_res_data = getattr(response, 'received_data', None) or response.to_bytes()
 
         # return IKE_AUTH request callback
         return self.generate_ike_auth_request()
